@@ -438,14 +438,17 @@ class Exec:
             got["cookies_exc"] = repr(e)
         kind = case["req"]["body"]["kind"]
         via_post = kind == "multipart" and case["req"]["body"].get("via") == "post" and request.method in ("POST", "PUT", "PATCH", "TRACE", "DELETE")
-        if not via_post:  # (a multipart body can be consumed once: either read() or post())
+        skip_body = case.get("srv_read") == "none"  # the handler answers without touching the request body
+        if skip_body:
+            self.counts.append("handler-answered-without-reading-the-body")
+        elif not via_post:  # (a multipart body can be consumed once: either read() or post())
             try:
                 got["body"] = await request.read()
             except Exception as e:  # noqa
                 got["body_exc"] = repr(e)
                 got["body_exc_type"] = type(e).__name__ + (":" + type(e.__cause__).__name__ if e.__cause__ is not None else "")
                 raise
-        if kind in ("form", "dict") or via_post:
+        if (kind in ("form", "dict") or via_post) and not skip_body:
             post = await request.post()
             items = []
             for k, val in post.items():
@@ -698,6 +701,18 @@ class Exec:
                 loop.settle()
             self.judge()
             self.v = self.primary(self.v)
+            if self.case.get("srv_read") == "none":
+                # early-response stratum: a client that has not finished sending its body when the complete response
+                # arrives gives the connection up (it cannot reuse a connection with a half-sent request) - its own close
+                # and the body it stopped writing are not a disagreement.  What is judged: a client that kept the
+                # connection must find the server still there, and the second exchange must work.
+                grey = ("wire:request-incomplete", "keepalive:server-open-client-closed:", "keepalive:closed-but-transport-count")
+                gave_up = [m for m, _s in self.v if m.startswith(grey[:2])]
+                if gave_up:
+                    self.counts.append("grey:early-response:client-gave-the-connection-up")
+                    self.v = [(m, sm) for m, sm in self.v if not m.startswith(grey)]
+                elif self.info.get("kept"):
+                    self.counts.append("early-response:connection-kept-by-both-ends")
         finally:
             try:
                 async def teardown():
@@ -837,7 +852,8 @@ class Exec:
                         if gc.get(k) != val:
                             flag("request:cookie-differs", f"cookie {k!r}: issued {val!r} received {gc.get(k)!r}")
                             break
-            self.check_req_body(got)
+            if case.get("srv_read") != "none":
+                self.check_req_body(got)
         # ---------- response as received
         if cli["status"] != rs["status"]:
             logs = [r for r in self.W.logcap.records if r[3]]
@@ -1478,6 +1494,8 @@ def shards(tier, seed):
         out.append({"kind": "systematic", "sub": i, "parts": nsys, "stride": 6 if q else 1})
     for i in range(10 if q else 48):
         out.append({"kind": "random", "sub": i, "n": 260 if q else 2000})
+    for i in range(2 if q else 8):
+        out.append({"kind": "skipbody", "sub": 200 + i, "n": 150 if q else 1200})
     return out
 
 
@@ -1541,6 +1559,20 @@ def run_shard(spec, rec):
                 "per-side sweep: body kind x size (0..65537) x framing option x version x {expect100 | status x HEAD}" + ("" if spec["stride"] == 1 else f" (1/{spec['stride']} sample per seed)"),
                 spec["stride"] == 1,
             )
+        elif spec["kind"] == "skipbody":
+            # the handler returns its response without reading the request body: the server drains the rest of the body
+            # after the response (lingering) and both ends must still agree on keep-alive; bodies large enough to be
+            # delivered in many reads after the handler has finished
+            rng = random.Random(spec["seed"] * 1000003 + spec["sub"] * 7919 + 77)
+            for k in range(spec["n"]):
+                force = {"req_kind": rng.choice(["bytes", "bytes", "bytearray", "bytesio", "str", "asyncgen", "json", "form", "file"]),
+                         "req_size": rng.choice([1, 100, 2049, 10000, 65537, 65537, 200000, 1 << 20]),
+                         "method": rng.choice(["POST", "PUT", "PATCH", "POST"]), "expect100": False}
+                case = gen_case(rng, force)
+                case["srv_read"] = "none"
+                ex = one(case, rec)
+                if k % 41 == 0 and ex is not None:
+                    rec.sample(sample_of(case, ex))
         else:
             rng = random.Random(spec["seed"] * 1000003 + spec["sub"] * 7919 + 2)
             for k in range(spec["n"]):
